@@ -49,6 +49,16 @@ type c06Spec struct {
 	TemplateName string      `json:"template_name,omitempty"`
 	CorruptSeed  uint64      `json:"corrupt_seed"`
 	Dec          *c06Dec     `json:"dec,omitempty"`
+	// Share: after the build and the first render, the listed rows (indices
+	// into AllRows(), non-separators) are also added, in this order, to a
+	// second table that already holds Pad rows (separators and one-cell rows
+	// alternating); the remaining renders of the first table follow.
+	Share *c06Share `json:"share,omitempty"`
+}
+
+type c06Share struct {
+	Rows []int `json:"rows"`
+	Pad  int   `json:"pad"`
 }
 
 // markup-hostile alphabet
@@ -165,6 +175,38 @@ func (s *c06Spec) fillQ() {
 	}
 }
 
+// multi-step features on top of a generated table: the shared ones (second
+// header after a staged render, early column properties, rows attached twice)
+// plus cells added long after the row joined the table, intermediate renders
+// through the reused wrapper, and rows shared with a second table
+func c06Enrich(r *RNG, s *c06Spec, nul bool) {
+	ts := &s.Table
+	enrichSpec(r, ts, c06Text(nul))
+	for i := range ts.Rows {
+		if !ts.Rows[i].Sep && r.Pct(8) {
+			n := 1 + r.Intn(2)
+			for k := 0; k < n; k++ {
+				ts.Rows[i].Late = append(ts.Rows[i].Late, c06Text(nul)(r))
+			}
+			ts.Rows[i].LateAfter = r.Intn(3)
+		}
+		if !ts.Rows[i].Sep && (ts.Rows[i].How == 1 || ts.Rows[i].How == 3) && r.Pct(8) {
+			ts.Rows[i].Twice = true
+		}
+	}
+	if len(ts.Rows) > 0 && len(ts.Stages) == 0 && r.Pct(20) {
+		ts.Stages = []int{r.Intn(len(ts.Rows))}
+	}
+	if len(ts.Rows) > 0 && r.Pct(15) {
+		sh := &c06Share{Pad: r.Intn(5)}
+		n := 1 + r.Intn(2)
+		for k := 0; k < n; k++ {
+			sh.Rows = append(sh.Rows, r.Intn(len(ts.Rows)+1)) // positions after a twice-attached row shift by one
+		}
+		s.Share = sh
+	}
+}
+
 func c06Gen_(r *RNG, tier string) []json.RawMessage {
 	var heavy, light []json.RawMessage
 	add := func(s c06Spec) {
@@ -184,8 +226,71 @@ func c06Gen_(r *RNG, tier string) []json.RawMessage {
 		maxRows = 4
 	}
 	enumShapes(maxRows, 2, func(h int, rows []int) {
-		add(c06Spec{Table: shapeSpec(r, h, rows, c06Text(false), hows), Renders: c06Renders(r, false)})
+		ts := shapeSpec(r, h, rows, c06Text(false), hows)
+		enrichSpec(r, &ts, c06Text(false))
+		add(c06Spec{Table: ts, Renders: c06Renders(r, false)})
 	})
+
+	// (a2) row objects that occupy more than one position: every row sequence
+	// up to length 3 over {separator, row, row attached twice} with at least one
+	// twice-attached row, with and without a header, the generator set in every
+	// render (a row's number is its POSITION in the table being rendered)
+	genOn := func() []c06Render {
+		return []c06Render{
+			{Gen: &c06Gen{Vals: [][]byte{[]byte("a"), []byte("b")}}},
+			{Id: []byte("i"), Gen: &c06Gen{}},
+		}
+	}
+	var seqs func(prefix []int)
+	seqs = func(prefix []int) {
+		twice := false
+		for _, k := range prefix {
+			twice = twice || k == 2
+		}
+		if twice {
+			for h := 0; h < 2; h++ {
+				ts := TableSpec{}
+				if h == 1 {
+					hs := []ItemSpec{Str("h")}
+					ts.Header = &hs
+				}
+				for n, k := range prefix {
+					switch k {
+					case 0:
+						ts.Rows = append(ts.Rows, RowSpec{Sep: true})
+					default:
+						ts.Rows = append(ts.Rows, RowSpec{How: 1 + 2*(n%2), Cells: []ItemSpec{c06Text(false)(r)}, Twice: k == 2})
+					}
+				}
+				add(c06Spec{Table: ts, Renders: genOn()})
+			}
+		}
+		if len(prefix) == 3 {
+			return
+		}
+		for k := 0; k < 3; k++ {
+			seqs(append(append([]int{}, prefix...), k))
+		}
+	}
+	seqs(nil)
+	// (a3) row objects shared with a second table at another position, between
+	// two renders of the first table
+	for n := 1; n <= 3; n++ {
+		for j := 0; j < n; j++ {
+			for _, pad := range []int{0, 1, 2, 4} {
+				if pad == j {
+					continue // same position in both tables: nothing to see
+				}
+				hs := []ItemSpec{Str("h")}
+				ts := TableSpec{Header: &hs}
+				for i := 0; i < n; i++ {
+					ts.Rows = append(ts.Rows, RowSpec{How: []int{1, 0, 2, 3}[(i+j)%4], Cells: []ItemSpec{c06Text(false)(r)}})
+				}
+				ts.Rows[j].How = 1
+				add(c06Spec{Table: ts, Renders: genOn(), Share: &c06Share{Rows: []int{j}, Pad: pad}})
+			}
+		}
+	}
 
 	// (b) every byte value in every context (cell, header, caption, id, class, generator value)
 	oneIn := func(s string) c06Spec {
@@ -223,13 +328,16 @@ func c06Gen_(r *RNG, tier string) []json.RawMessage {
 	}
 	for i := 0; i < n; i++ {
 		s := c06Spec{Table: randTable(r, 5, 5, c06Text(false), hows), Renders: c06Renders(r, false)}
+		c06Enrich(r, &s, false)
 		if r.Pct(30) {
 			s.TemplateName = pick(r, []string{"t", "table", "{{.}}", "<x>"})
 		}
 		add(s)
 	}
 	for i := 0; i < nn; i++ {
-		add(c06Spec{Table: randTable(r, 4, 4, c06Text(true), hows), Renders: c06Renders(r, true)})
+		s := c06Spec{Table: randTable(r, 4, 4, c06Text(true), hows), Renders: c06Renders(r, true)}
+		c06Enrich(r, &s, true)
+		add(s)
 	}
 
 	// (f) decoder against the standard library
@@ -405,6 +513,96 @@ func c06RunDec(d *c06Dec) CaseOut {
 	}
 }
 
+// expected generator calls, positionally: 0 for the header row, then the
+// 1-based position (separators counted) of every non-separator row
+func c06Positional(v View) []int {
+	out := []int{0}
+	for i, r := range v.Rows {
+		if r != nil {
+			out = append(out, i+1)
+		}
+	}
+	return out
+}
+
+func intsEqual(a, b []int) bool {
+	if len(a) != len(b) {
+		return false
+	}
+	for i := range a {
+		if a[i] != b[i] {
+			return false
+		}
+	}
+	return true
+}
+
+// c06Wrapper is one html wrapper and the generator bookkeeping around it
+type c06Wrapper struct {
+	ht    *html.HTMLTable
+	calls []int
+	rets  [][]byte
+}
+
+func (w *c06Wrapper) configure(rd c06Render) {
+	w.ht.Id, w.ht.Class, w.ht.Caption = string(rd.Id), string(rd.Class), string(rd.Caption)
+	if rd.Gen == nil {
+		w.ht.SetRowClassGenerator(nil, nil)
+		return
+	}
+	vals := rd.Gen.Vals
+	w.ht.SetRowClassGenerator(func(n int, ctx interface{}) template.HTMLAttr {
+		var ret []byte
+		if len(vals) > 0 {
+			ret = vals[len(w.calls)%len(vals)]
+		}
+		w.calls = append(w.calls, n)
+		w.rets = append(w.rets, ret)
+		return template.HTMLAttr(ret)
+	}, nil)
+}
+
+// render: the calls / return values recorded are those of this render only
+func (w *c06Wrapper) render() (string, error) {
+	w.calls, w.rets = nil, nil
+	return w.ht.Render()
+}
+
+// the Coq record of one render and its human-readable description
+func c06RenderTerm(rd c06Render, o Outcome, w *c06Wrapper, crng *RNG) (term string, ro c06RenderObs) {
+	ro = c06RenderObs{Outcome: o, Calls: w.calls}
+	var obsTerm string
+	var splices []string
+	switch o.Kind {
+	case "ok":
+		cs := make([]string, len(w.calls))
+		for i, c := range w.calls {
+			if c < 0 {
+				c = 1 << 20 // never expected; keeps the term a nat
+			}
+			cs[i] = cqNat(c)
+		}
+		obsTerm = "(Ok (" + cqBytes(o.Out) + ", " + cqList(cs) + "))"
+		splices, ro.Corrupt = c06Corruptions(o.Out, crng)
+	case "err":
+		obsTerm = "Err"
+	default:
+		obsTerm = "Panic"
+	}
+	rs := make([]string, len(w.rets))
+	for i, x := range w.rets {
+		rs[i] = cqBytes(x)
+		ro.Returns = append(ro.Returns, fmt.Sprintf("%q", x))
+	}
+	term = fmt.Sprintf("mkR %s %s %s %s %s %s %s", cqBytes(rd.Id), cqBytes(rd.Class), cqBytes(rd.Caption),
+		cqBool(rd.Gen != nil), cqList(rs), obsTerm, cqList(splices))
+	return
+}
+
+func c06CaseTerm(vc string, rterms []string) string {
+	return "(let v := " + vc + " in\n   let rs := [" + strings.Join(rterms, ";\n     ") + "] in\n   CRenders v rs ltac:(vm_cast_no_check (@eq_refl bool true)))"
+}
+
 func c06Run(spec json.RawMessage) CaseOut {
 	var s c06Spec
 	if err := json.Unmarshal(spec, &s); err != nil {
@@ -413,12 +611,26 @@ func c06Run(spec json.RawMessage) CaseOut {
 	if s.Dec != nil {
 		return c06RunDec(s.Dec)
 	}
-	t := tabular.New()
-	s.Table.Build(t)
-	v := extractView(t)
-	ht := html.Wrap(t)
-	ht.TemplateName = s.TemplateName
+	if len(s.Renders) == 0 {
+		s.Renders = []c06Render{{}}
+	}
+	// What the output is judged against comes from the SPEC alone (what was
+	// put in), never read back from the table under test.
+	v := s.Table.SpecView()
 	crng := NewRNG(s.CorruptSeed)
+
+	// Build through the shared staged builder: with stages the ONE wrapper is
+	// made before the first building call and renders the partial table at
+	// every stage (configuration of render 0); the first judged render is the
+	// one at the end of the build.
+	t := tabular.New()
+	w := &c06Wrapper{}
+	o0 := s.Table.BuildRender(t, func(t tabular.Table) func() (string, error) {
+		w.ht = html.Wrap(t)
+		w.ht.TemplateName = s.TemplateName
+		w.configure(s.Renders[0])
+		return w.render
+	})
 
 	var rterms []string
 	var obs []c06RenderObs
@@ -437,59 +649,23 @@ func c06Run(spec json.RawMessage) CaseOut {
 		}
 	}
 	size := s.Table.Size()
-	okAll := true
-	for k, rd := range s.Renders {
-		ht.Id, ht.Class, ht.Caption = string(rd.Id), string(rd.Class), string(rd.Caption)
-		var calls []int
-		var rets [][]byte
-		if rd.Gen != nil {
-			vals := rd.Gen.Vals
-			ht.SetRowClassGenerator(func(n int, ctx interface{}) template.HTMLAttr {
-				var ret []byte
-				if len(vals) > 0 {
-					ret = vals[len(calls)%len(vals)]
-				}
-				calls = append(calls, n)
-				rets = append(rets, ret)
-				return template.HTMLAttr(ret)
-			}, nil)
-		} else {
-			ht.SetRowClassGenerator(nil, nil)
-		}
-		o := capture(func() (string, error) { return ht.Render() })
-		ro := c06RenderObs{Outcome: o, Calls: calls}
-		tags = append(tags, "outcome="+o.Kind)
-		var obsTerm string
-		var splices []string
-		switch o.Kind {
-		case "ok":
-			cs := make([]string, len(calls))
-			for i, c := range calls {
-				if c < 0 {
-					c = 1 << 20 // never expected; keeps the term a nat
-				}
-				cs[i] = cqNat(c)
-			}
-			obsTerm = "(Ok (" + cqBytes(o.Out) + ", " + cqList(cs) + "))"
-			splices, ro.Corrupt = c06Corruptions(o.Out, crng)
-			for _, k := range ro.Corrupt {
-				tags = append(tags, "selftest:corrupt:"+k)
-			}
-		case "err":
-			obsTerm, okAll = "Err", false
-		default:
-			obsTerm, okAll = "Panic", false
-		}
-		rs := make([]string, len(rets))
-		for i, x := range rets {
-			rs[i] = cqBytes(x)
-			ro.Returns = append(ro.Returns, fmt.Sprintf("%q", x))
-			all = append(all, x)
-		}
-		all = append(all, rd.Id, rd.Class, rd.Caption)
-		rterms = append(rterms, fmt.Sprintf("mkR %s %s %s %s %s %s %s", cqBytes(rd.Id), cqBytes(rd.Class), cqBytes(rd.Caption),
-			cqBool(rd.Gen != nil), cqList(rs), obsTerm, cqList(splices)))
+	okAll, callsOK := true, true
+	want := c06Positional(v)
+	note := func(k int, rd c06Render, o Outcome) {
+		term, ro := c06RenderTerm(rd, o, w, crng)
+		rterms = append(rterms, term)
 		obs = append(obs, ro)
+		tags = append(tags, "outcome="+o.Kind)
+		for _, kd := range ro.Corrupt {
+			tags = append(tags, "selftest:corrupt:"+kd)
+		}
+		if o.Kind != "ok" {
+			okAll = false
+		} else if rd.Gen != nil && !intsEqual(w.calls, want) {
+			callsOK = false
+		}
+		all = append(all, w.rets...)
+		all = append(all, rd.Id, rd.Class, rd.Caption)
 		size += len(rd.Id) + len(rd.Class) + len(rd.Caption) + 1
 		if rd.Gen != nil {
 			size += 1
@@ -522,6 +698,81 @@ func c06Run(spec json.RawMessage) CaseOut {
 			}
 		}
 	}
+	note(0, s.Renders[0], o0)
+
+	// Between the first and the later renders some of the table's row objects
+	// are ALSO added to a second table, at other positions: whatever a *Row
+	// remembers about "its" position now belongs to that other table, while
+	// this table's rows, and so the expected numbering, are unchanged.
+	var otherTerm string
+	if s.Share != nil {
+		other := tabular.New()
+		ov := View{}
+		for i := 0; i < s.Share.Pad; i++ {
+			if i%2 == 0 {
+				other.AddSeparator()
+				ov.Rows = append(ov.Rows, nil)
+			} else {
+				other.AddRowItems("p")
+				ov.Rows = append(ov.Rows, &[]VCell{{Text: "p"}})
+			}
+		}
+		rows := t.AllRows()
+		shared := 0
+		for _, i := range s.Share.Rows {
+			if i < 0 || i >= len(rows) || i >= len(v.Rows) || v.Rows[i] == nil || rows[i].IsSeparator() {
+				continue
+			}
+			other.AddRow(rows[i])
+			ov.Rows = append(ov.Rows, v.Rows[i])
+			shared++
+		}
+		if shared > 0 {
+			tags = append(tags, "row-shared-with-second-table")
+			for _, r := range ov.Rows {
+				if r != nil && len(*r) > ov.NCols {
+					ov.NCols = len(*r)
+				}
+			}
+			for i := 0; i <= ov.NCols; i++ {
+				ov.Align = append(ov.Align, 0)
+				ov.Skip = append(ov.Skip, 0)
+			}
+			// the second table is rendered (and judged) too, through its own wrapper
+			ow := &c06Wrapper{ht: html.Wrap(other)}
+			ord := c06Render{Gen: &c06Gen{Vals: [][]byte{[]byte("o")}}}
+			ow.configure(ord)
+			oo := capture(ow.render)
+			term, ro := c06RenderTerm(ord, oo, ow, crng)
+			obs = append(obs, ro)
+			if oo.Kind != "ok" {
+				okAll = false
+			} else if !intsEqual(ow.calls, c06Positional(ov)) {
+				callsOK = false
+			}
+			otherTerm = c06CaseTerm(ov.Coq(true), []string{term})
+			size += 2 + shared + s.Share.Pad
+		}
+	}
+	for k := 1; k < len(s.Renders); k++ {
+		w.configure(s.Renders[k])
+		note(k, s.Renders[k], capture(w.render))
+	}
+
+	for _, r := range s.Table.Rows {
+		if r.Twice && (r.How == 1 || r.How == 3) && !r.Sep {
+			tags = append(tags, "row-attached-twice")
+		}
+		if len(r.Late) > 0 {
+			tags = append(tags, "late-cells")
+		}
+	}
+	if len(s.Table.Stages) > 0 {
+		tags = append(tags, "staged-renders")
+	}
+	if s.Table.Header2 != nil {
+		tags = append(tags, "second-header")
+	}
 	cls := c06Classes(all...)
 	tags = append(tags, cls...)
 	tags = append(tags, fmt.Sprintf("renders=%d", len(s.Renders)))
@@ -535,18 +786,23 @@ func c06Run(spec json.RawMessage) CaseOut {
 		}
 	}
 	vc := v.Coq(true)
-	rsTerm := "[" + strings.Join(rterms, ";\n     ") + "]"
-	term := "(let v := " + vc + " in\n   let rs := " + rsTerm + " in\n   CRenders v rs ltac:(vm_cast_no_check (@eq_refl bool true)))"
+	term := c06CaseTerm(vc, rterms)
+	if otherTerm != "" {
+		term = "(CBoth " + term + "\n  " + otherTerm + ")"
+	}
 	sig := "html-render"
-	if !okAll {
+	switch {
+	case !okAll:
 		sig = "html-render-fails"
+	case !callsOK:
+		sig = "rowclass-call-numbers"
 	}
 	return CaseOut{
 		Coq:        term,
-		Desc:       map[string]interface{}{"renders": obs, "sig": sig},
+		Desc:       map[string]interface{}{"renders": obs, "sig": sig, "expected_calls_when_generator_set": want},
 		Size:       size,
 		Tags:       utags,
-		Key:        vc + rsTerm,
+		Key:        term,
 		Nontrivial: len(cls) > 0,
 	}
 }
@@ -570,6 +826,40 @@ func c06Shrink(spec json.RawMessage) []json.RawMessage {
 		c := clone()
 		c.Table = ts
 		emit(c)
+	}
+	for i := range s.Table.Rows {
+		if s.Table.Rows[i].Twice {
+			c := clone()
+			c.Table.Rows[i].Twice = false
+			emit(c)
+		}
+	}
+	if s.Table.Header2 != nil {
+		c := clone()
+		c.Table.Header2 = nil
+		emit(c)
+	}
+	if sh := s.Share; sh != nil {
+		c := clone()
+		c.Share = nil
+		emit(c)
+		for i := range sh.Rows {
+			if len(sh.Rows) > 1 {
+				c := clone()
+				c.Share.Rows = append(append([]int{}, sh.Rows[:i]...), sh.Rows[i+1:]...)
+				emit(c)
+			}
+			if sh.Rows[i] > 0 {
+				c := clone()
+				c.Share.Rows[i]--
+				emit(c)
+			}
+		}
+		if sh.Pad > 0 {
+			c := clone()
+			c.Share.Pad--
+			emit(c)
+		}
 	}
 	for i := range s.Renders {
 		if len(s.Renders) > 1 {
@@ -627,12 +917,12 @@ func init() {
 		CaseType: "c06_case",
 		CaseFn:   "C06_case",
 		ModelFn:  "C06_model",
-		Rule: "tables built through the public API, wrapped once by html.Wrap and rendered 2-3 times from that wrapper with Id/Class/Caption/TemplateName and the row-class generator (absent / returning \"\" / returning hostile strings as template.HTMLAttr) changed between renders; " +
+		Rule: "the output is judged against the view computed from the SPEC (never read back from the table under test); tables built through the public API (incl. a second AddHeaders, cells added to a row long after it was attached, a pre-built row attached twice, rows also added to a second table at another position between two renders, intermediate renders of the partial table through the one reused wrapper), wrapped once by html.Wrap and rendered 2-3 times from that wrapper with Id/Class/Caption/TemplateName and the row-class generator (absent / returning \"\" / returning hostile strings as template.HTMLAttr) changed between renders; " +
 			"every shape with header in {none,0,1,2 cells} and up to 3 rows over {separator,0,1,2 cells}; every single byte value 0..255, every pair over 12 hostile ASCII bytes and every hostile atom, each in cell, header, caption, id, class and generator-value position; " +
 			"random tables to 5x5 with texts from a markup-hostile alphabet (< > \" ' & + = / space LF backtick, entity look-alikes, tag text, comment text, template syntax, invalid UTF-8), NUL in a separate stream judged against U+FFFD; " +
 			"each accepted output is also corrupted (dropped '>', injected tag, unescaped / truncated entity, added attribute, truncated document, stray text) and the Coq tokenizer must refuse every corruption; the Coq entity decoder is compared with html.UnescapeString / html.EscapeString / template.HTMLEscapeString; " +
 			"a case is non-trivial when some supplied string contains a byte that needs escaping or invalid UTF-8; distinct = distinct (view, renders, outcomes)",
-		Exhaustive: "shapes (header x row-sequence up to length 3); all 256 single bytes, all 144 pairs over 12 hostile bytes and all atoms in six contexts",
+		Exhaustive: "shapes (header x row-sequence up to length 3); all row sequences up to length 3 over {separator, row, twice-attached row} with a generator; all 256 single bytes, all 144 pairs over 12 hostile bytes and all atoms in six contexts",
 		Gen:        c06Gen_,
 		Run:        c06Run,
 		Shrink:     c06Shrink,
